@@ -627,3 +627,240 @@ Proof.
   assert (H5: IdxJ s5) by (eapply set_plain_pres; [|exact H4|exact E9]; intros y; split; reflexivity).
   eapply set_plain_pres; [|exact H5|exact H]; intros y; split; reflexivity.
 Qed.
+
+(* ------------------------------------------------------------------ SyncState.update: one provider event *)
+Lemma set_ignored_pview s e v s' : set_ignored s e v = Ok s' -> pview s' = pview s.
+Proof.
+  unfold set_ignored. intros H. bind_inv2 H en E0. destruct (ign_eqb (e_ign en) v); [injection H as <-; reflexivity|].
+  cbv zeta in H.
+  match type of H with match nth_error (ents (dirty_add ?S1 e)) e with _ => _ end = _ => set (s1 := S1) in *; assert (H1: pview s1 = pview s) end.
+  { unfold s1. destruct v; try reflexivity.
+    transitivity (pview (raw_side (raw_side s e false (fun y => w_chg y CFalse)) e true (fun y => w_chg y CFalse))); [reflexivity|].
+    rewrite !pview_raw_side; [reflexivity| |]; intros y; split; reflexivity. }
+  destruct (nth_error (ents (dirty_add s1 e)) e) as [en2|] eqn:E2; [|discriminate]. injection H as <-.
+  rewrite <- H1. unfold pview, put_ent. simpl. apply (map_list_upd pkey _ _ _ _ E2). reflexivity.
+Qed.
+
+(* the lookup_path(stale=True) loop of update, by name *)
+Definition stale_loop : list eid -> state -> option eid -> res (state * option eid) :=
+  fix loop (l : list eid) (s : state) (cur : option eid) {struct l} : res (state * option eid) :=
+    match l with
+    | [] => Ok (s, cur)
+    | pe' :: r =>
+      match ign_of s pe' with
+      | IDiscarded | INone => (s' <- set_ignored s pe' INone ;; loop r s' (Some pe'))
+      | _ => Err EAssert
+      end
+    end.
+
+Lemma stale_loop_spec : forall l s cur s' cur', stale_loop l s cur = Ok (s', cur') ->
+  iview s' = iview s /\ pview s' = pview s /\ (cur' = cur \/ exists x, cur' = Some x /\ In x l).
+Proof.
+  induction l as [|a l IH]; intros s cur s' cur' H; simpl in H.
+  - injection H as <- <-. split; [reflexivity|]. split; [reflexivity|left; reflexivity].
+  - assert (Hgo: (s2 <- set_ignored s a INone ;; stale_loop l s2 (Some a)) = Ok (s', cur')).
+    { destruct (ign_of s a); try discriminate; exact H. }
+    clear H. bind_inv2 Hgo s2 E2. apply IH in Hgo as [A [B C]].
+    split; [rewrite A; eapply set_ignored_view; exact E2|]. split; [rewrite B; eapply set_ignored_pview; exact E2|].
+    right. destruct C as [->|[x [-> Hx]]]; [exists a; split; [reflexivity|left; reflexivity]|exists x; split; [reflexivity|right; exact Hx]].
+Qed.
+
+(* first half of update: which entry does the event land on *)
+Definition upd_phase1 (E : env) (s : state) (sd : bool) (oid path prior : option str) : res (state * option eid) :=
+  let ent0 := lookup_oid s sd oid in
+  if tstr prior && negb (ostr_eqb prior oid) then
+    let pr := lookup_oid s sd prior in
+    y1 <- (match ent0, pr with
+           | None, Some pe =>
+             pn <- get_ent s pe ;;
+             if is_discarded (e_ign pn) &&
+                (match s_ex (gs pn sd) with ExTrashed | ExMissing => true | _ => false end)
+             then (s' <- set_ignored s pe INone ;; Ok (s', Some pe))
+             else Ok (s, ent0)
+           | _, _ => Ok (s, ent0)
+           end) ;;
+    let '(s1, ent1) := y1 in
+    match pr with
+    | Some pe =>
+      pn <- get_ent s1 pe ;;
+      if negb (is_discarded (e_ign pn)) then
+        match ent1 with
+        | None => Ok (s1, Some pe)
+        | Some e1 =>
+          n1 <- get_ent s1 e1 ;;
+          if negb (is_conflicted (e_ign n1)) &&
+             (thash (s_shash (gs pn sd)) || negb (thash (s_shash (gs n1 sd)))) then
+            if tstr (s_oid (gs n1 (negb sd))) && negb (tstr (s_oid (gs pn (negb sd)))) then
+              (s' <- move_side E s1 pe e1 (negb sd) ;; Ok (s', Some pe))
+            else Ok (s1, Some pe)
+          else Ok (s1, ent1)
+        end
+      else
+        match ent1 with
+        | Some _ => Ok (s1, ent1)
+        | None => stale_loop (lookup_path_stale s1 sd path) s1 None
+        end
+    | None =>
+      match ent1 with
+      | Some _ => Ok (s1, ent1)
+      | None => stale_loop (lookup_path_stale s1 sd path) s1 None
+      end
+    end
+  else Ok (s, ent0).
+
+Definition upd_rest (E : env) (sd : bool) (ot : option otype) (oid path : option str) (h : option N) (ex : option bool)
+           (y : state * option eid) : res state :=
+  let '(s1, ent) := y in
+  y2 <- (match ent with
+         | Some e => Ok (s1, e)
+         | None => match ot with Some t => Ok (add_entry s1 t) | None => Err EAssert end
+         end) ;;
+  let '(s2, e) := y2 in
+  let s3 := st_now s2 (now s2 + 1000)%N in
+  update_entry E s3 e sd oid path h ex true ot.
+
+Lemma update_eq E s sd ot oid path h ex prior :
+  update E s sd ot oid path h ex prior = (y <- upd_phase1 E s sd oid path prior ;; upd_rest E sd ot oid path h ex y).
+Proof. reflexivity. Qed.
+
+(* the guard of an event, read off the state before it: for every entry the event can land on (the holder of
+   the id, the holder of the prior id, the entries filed under the path) the new path is not strictly below the
+   entry's current path if the event says "folder"; and the guard of the side move of the merge branch *)
+Definition candb (E : env) (s : state) (sd : bool) (ot : option otype) (path : option str) (e : eid) : bool :=
+  match path_of s e sd, path with
+  | Some pp, Some p =>
+    negb ((match ot with Some t => otype_eqb t Dir | None => true end) && belowb (cvs E sd) pp (nps (cvs E sd) p))
+  | _, _ => true
+  end.
+Definition ocandb (E : env) (s : state) (sd : bool) (ot : option otype) (path : option str) (x : option eid) : bool :=
+  match x with Some e => candb E s sd ot path e | None => true end.
+Definition upd_guardb (E : env) (s : state) (sd : bool) (ot : option otype) (oid path prior : option str) : bool :=
+  ocandb E s sd ot path (lookup_oid s sd oid) && ocandb E s sd ot path (lookup_oid s sd prior) &&
+  forallb (candb E s sd ot path) (lookup_path_stale s sd path) &&
+  match lookup_oid s sd prior, lookup_oid s sd oid with
+  | Some pe, Some e1 => mv_guardb E s pe e1 (negb sd)
+  | _, _ => true
+  end.
+
+Definition cand_ok (E : env) (s : state) (sd : bool) (ot : option otype) (path : option str) (e : eid) : Prop :=
+  forall pp p, path_of s e sd = Some pp -> path = Some p ->
+    (match ot with Some t => otype_eqb t Dir | None => true end) = true ->
+    belowb (cvs E sd) pp (nps (cvs E sd) p) = false.
+Lemma candb_ok E s sd ot path e : candb E s sd ot path e = true -> cand_ok E s sd ot path e.
+Proof.
+  unfold candb. intros H pp p Hpp Hp Hc. rewrite Hpp, Hp, Hc in H. cbn [andb] in H. apply negb_true_iff in H. exact H.
+Qed.
+
+Lemma mv_guardb_ext E s s1 d sr sd :
+  (forall x sd', otype_of s1 x sd' = otype_of s x sd') -> (forall x sd', path_of s1 x sd' = path_of s x sd') ->
+  (forall x sd', oid_of s1 x sd' = oid_of s x sd') -> mv_guardb E s1 d sr sd = mv_guardb E s d sr sd.
+Proof. intros Ht Hp Ho. unfold mv_guardb. rewrite !Ht, !Hp, !Ho. reflexivity. Qed.
+
+Lemma upd_phase1_spec E s sd ot oid path prior s1 ent :
+  env_ok E -> IdxJ s -> upd_guardb E s sd ot oid path prior = true ->
+  upd_phase1 E s sd oid path prior = Ok (s1, ent) ->
+  IdxJ s1 /\ (forall x, path_of s1 x sd = path_of s x sd) /\ (forall e, ent = Some e -> cand_ok E s sd ot path e).
+Proof.
+  intros HE HJ Hg H. unfold upd_guardb in Hg.
+  apply andb_prop in Hg as [Hg Hgm]. apply andb_prop in Hg as [Hg Hgs]. apply andb_prop in Hg as [Hgo Hgp].
+  assert (Cent0: forall e, lookup_oid s sd oid = Some e -> cand_ok E s sd ot path e).
+  { intros e He. rewrite He in Hgo. apply candb_ok. exact Hgo. }
+  assert (Cpr: forall e, lookup_oid s sd prior = Some e -> cand_ok E s sd ot path e).
+  { intros e He. rewrite He in Hgp. apply candb_ok. exact Hgp. }
+  assert (Cst: forall e, In e (lookup_path_stale s sd path) -> cand_ok E s sd ot path e).
+  { intros e He. apply candb_ok. rewrite forallb_forall in Hgs. apply Hgs. exact He. }
+  unfold upd_phase1 in H. cbv zeta in H.
+  destruct (tstr prior && negb (ostr_eqb prior oid))%bool.
+  2:{ injection H as <- <-. split; [exact HJ|]. split; [reflexivity|exact Cent0]. }
+  bind_inv2 H y1 E1. destruct y1 as [s1' ent1].
+  (* the re-use of a discarded entry *)
+  assert (Y1: iview s1' = iview s /\ pview s1' = pview s /\
+              (ent1 = lookup_oid s sd oid \/ (lookup_oid s sd oid = None /\ ent1 = lookup_oid s sd prior))).
+  { destruct (lookup_oid s sd oid) as [e0|] eqn:El0; [injection E1 as <- <-; split; [reflexivity|split; [reflexivity|left; reflexivity]]|].
+    destruct (lookup_oid s sd prior) as [pe|] eqn:Elp; [|injection E1 as <- <-; split; [reflexivity|split; [reflexivity|left; reflexivity]]].
+    bind_inv2 E1 pn E2.
+    destruct (is_discarded (e_ign pn) && match s_ex (gs pn sd) with ExTrashed | ExMissing => true | _ => false end)%bool;
+      [|injection E1 as <- <-; split; [reflexivity|split; [reflexivity|left; reflexivity]]].
+    bind_inv2 E1 sg E3. injection E1 as <- <-.
+    split; [eapply set_ignored_view; exact E3|]. split; [eapply set_ignored_pview; exact E3|right; split; reflexivity]. }
+  destruct Y1 as [Hv1 [Hpv1 Hent1]].
+  assert (HJ1: IdxJ s1') by (apply (IdxJ_view s); [symmetry; exact Hv1|exact HJ]).
+  destruct (iview_eq _ _ Hv1) as [He1 [Ho1 Hp1]].
+  assert (Hpa1: forall x sd', path_of s1' x sd' = path_of s x sd') by (intros; apply (proj2 (He1 x sd'))).
+  assert (Cent1: forall e, ent1 = Some e -> cand_ok E s sd ot path e).
+  { intros e He. destruct Hent1 as [Hx|[_ Hx]]; rewrite Hx in He; [apply Cent0|apply Cpr]; exact He. }
+  assert (Hstale: lookup_path_stale s1' sd path = lookup_path_stale s sd path) by (unfold lookup_path_stale; rewrite Hp1; reflexivity).
+  assert (Hloop: forall sg cur, stale_loop (lookup_path_stale s1' sd path) s1' None = Ok (sg, cur) ->
+            IdxJ sg /\ (forall x, path_of sg x sd = path_of s x sd) /\ (forall e, cur = Some e -> cand_ok E s sd ot path e)).
+  { intros sg cur Hl. apply stale_loop_spec in Hl as [A [_ C]].
+    split; [apply (IdxJ_view s1'); [symmetry; exact A|exact HJ1]|]. split.
+    - intros x. destruct (iview_eq _ _ A) as [Hex _]. rewrite (proj2 (Hex x sd)). apply Hpa1.
+    - intros e He. destruct C as [->|[x [-> Hx]]]; [discriminate|]. injection He as <-. apply Cst. rewrite <- Hstale. exact Hx. }
+  assert (Hsame: IdxJ s1' /\ (forall x, path_of s1' x sd = path_of s x sd)) by (split; [exact HJ1|intros; apply Hpa1]).
+  destruct (lookup_oid s sd prior) as [pe|] eqn:Elp.
+  2:{ destruct ent1 as [e1|]; [injection H as <- <-; split; [exact HJ1|split; [intros; apply Hpa1|exact Cent1]]|].
+      apply Hloop. exact H. }
+  bind_inv2 H pn E2.
+  destruct (negb (is_discarded (e_ign pn))).
+  2:{ destruct ent1 as [e1|]; [injection H as <- <-; split; [exact HJ1|split; [intros; apply Hpa1|exact Cent1]]|].
+      apply Hloop. exact H. }
+  assert (Cpe: forall e, Some pe = Some e -> cand_ok E s sd ot path e) by (intros e He; injection He as <-; apply Cpr; reflexivity).
+  destruct ent1 as [e1|]; [|injection H as <- <-; split; [exact HJ1|split; [intros; apply Hpa1|exact Cpe]]].
+  bind_inv2 H n1 E3.
+  destruct (negb (is_conflicted (e_ign n1)) && (thash (s_shash (gs pn sd)) || negb (thash (s_shash (gs n1 sd)))))%bool;
+    [|injection H as <- <-; split; [exact HJ1|split; [intros; apply Hpa1|exact Cent1]]].
+  destruct (tstr (s_oid (gs n1 (negb sd))) && negb (tstr (s_oid (gs pn (negb sd)))))%bool;
+    [|injection H as <- <-; split; [exact HJ1|split; [intros; apply Hpa1|exact Cpe]]].
+  (* the merge: the other side of e1 moves to pe *)
+  bind_inv2 H sm E4. injection H as <- <-.
+  assert (Hmg: mv_guardb E s1' pe e1 (negb sd) = true).
+  { rewrite (mv_guardb_ext E s s1').
+    - destruct Hent1 as [Hx|[_ Hx]].
+      + rewrite <- Hx in Hgm. exact Hgm.
+      + injection Hx as ->. unfold mv_guardb. rewrite Nat.eqb_refl. reflexivity.
+    - intros x sd'. apply (proj2 (pview_eq _ _ Hpv1 x sd')).
+    - intros x sd'. apply Hpa1.
+    - intros x sd'. apply (proj1 (He1 x sd')). }
+  destruct (move_side_spec _ _ _ _ _ _ HE HJ1 Hmg E4) as [HJm Hfr].
+  split; [exact HJm|]. split; [|exact Cpe].
+  intros x. specialize (Hfr x). rewrite negb_involutive in Hfr. rewrite Hfr. apply Hpa1.
+Qed.
+
+Lemma ue_guardb_of_cand E s e sd oid path ot :
+  (forall pp p, path_of s e sd = Some pp -> path = Some p ->
+     (match ot with Some t => otype_eqb t Dir | None => true end) = true ->
+     belowb (cvs E sd) pp (nps (cvs E sd) p) = false) ->
+  ue_guardb E s e sd oid path ot = true.
+Proof.
+  intros H. unfold ue_guardb. destruct path as [p|]; [|reflexivity].
+  destruct (nth_error (ents s) e) as [en|] eqn:En; [|reflexivity].
+  match goal with |- (if ?c then _ else _) = _ => destruct c; [reflexivity|] end.
+  destruct (match ot with Some t => t | None => s_otype (gs en sd) end) eqn:Et; try reflexivity.
+  destruct (s_path (gs en sd)) as [pp|] eqn:Ep; [|reflexivity].
+  apply negb_true_iff. apply (H pp p); [unfold path_of; rewrite En; exact Ep|reflexivity|].
+  destruct ot as [t|]; [subst t|]; reflexivity.
+Qed.
+
+Lemma update_pres E s sd ot oid path h ex prior s' :
+  env_ok E -> IdxJ s -> upd_guardb E s sd ot oid path prior = true ->
+  update E s sd ot oid path h ex prior = Ok s' -> IdxJ s'.
+Proof.
+  intros HE HJ Hg H. rewrite update_eq in H. bind_inv2 H y E1. destruct y as [s1 ent].
+  destruct (upd_phase1_spec _ _ _ _ _ _ _ _ _ HE HJ Hg E1) as [HJ1 [Hp1 Hc]].
+  unfold upd_rest in H. bind_inv2 H y2 E2. destruct y2 as [s2 e]. cbv zeta in H.
+  set (s3 := st_now s2 (now s2 + 1000)%N) in *.
+  assert (H3: IdxJ s3 /\ forall pp p, path_of s3 e sd = Some pp -> path = Some p ->
+                 (match ot with Some t => otype_eqb t Dir | None => true end) = true ->
+                 belowb (cvs E sd) pp (nps (cvs E sd) p) = false).
+  { destruct ent as [e0|].
+    - injection E2 as <- <-. split; [apply (IdxJ_view s1); [reflexivity|exact HJ1]|].
+      intros pp p Hpp. change (path_of s3 e0 sd) with (path_of s1 e0 sd) in Hpp. rewrite Hp1 in Hpp.
+      apply (Hc e0 eq_refl). exact Hpp.
+    - destruct ot as [t|]; [|discriminate]. unfold add_entry in E2. injection E2 as <- <-.
+      pose proof (add_entry_pres s1 t HJ1) as Ha. pose proof (add_entry_fresh s1 t sd) as Hf.
+      split; [exact (IdxJ_view _ _ (eq_refl _) Ha)|].
+      intros pp p Hpp. unfold s3 in Hpp. unfold add_entry in Hf. simpl in Hf.
+      change (path_of (st_ents s1 (ents s1 ++ [new_entry t])) (length (ents s1)) sd = Some pp) in Hpp. rewrite Hf in Hpp. discriminate. }
+  destruct H3 as [HJ3 Hc3].
+  eapply update_entry_pres; [exact HE|exact HJ3| |exact H]. apply ue_guardb_of_cand. exact Hc3.
+Qed.
